@@ -8,11 +8,17 @@ C02 — Error-correction blocks are valid RS codewords with the ISO block layout
 * `C02_remainder_table` : `missing_bits` equals ISO Table 1's remainder bits.
 * `C02_bounds` : every block plus generator fits `division`'s 255-byte buffer and the interleaved
   sequence fits the 5430-byte array (no index can leave them).
-* zero syndromes: see `Props/C07.lean` (`C07_remainder`, `C07_syndromes`) — the EC codewords are the
-  polynomial remainder, hence data ++ ec is a multiple of g and vanishes at alpha^0..alpha^(ec-1).
+* `C02_syndromes` : for EVERY content of a Table 9-sized block, data ++ EC (as computed by the model of
+  `division` with the crate's generator) has all-zero syndromes at alpha^0..alpha^(ec-1) — symbolic
+  (Proofs/Gf, Proofs/Division, Proofs/Syndromes): table product = field product, division loop =
+  schoolbook remainder, the remainder modulo ∏(x - alpha^i) vanishes at the roots.
+* the recovery corollary (floor(ec/2) errors correctable) follows by the BCH bound, which is cited,
+  not proved here.
 -/
 import FastQr.Finite.Tables
 import FastQr.Proofs.Lift
+import FastQr.Props.C07
+import FastQr.Model.Poly
 
 namespace FastQr.Props.C02
 open FastQr Spec Finite Proofs
@@ -51,6 +57,19 @@ theorem C02_bounds {v : Nat} (hv : v < 40) (l : ECL) :
   obtain ⟨_, _, _, _, _, h6, _, _, _, ha, hb, hd⟩ := h
   simp only at *
   refine ⟨by omega, by omega, hd⟩
+
+/-- **C02 (zero syndromes)**: for every version and level and EVERY content of a block of the Table 9
+size (group 1 or group 2), data ++ EC has all-zero syndromes at alpha^0 … alpha^(ec-1) -/
+theorem C02_syndromes {v : Nat} (hv : v < 40) (l : ECL) (data : List Nat) (hdata : ∀ x ∈ data, x < 256)
+    (hsize : data.length = (T.groups l v).2.1 ∨ data.length = (T.groups l v).2.2.2) :
+    ∀ s ∈ GF.syndromes (data ++ Model.ecOf data (T.generator l v)) ((T.generator l v).length - 1), s = 0 := by
+  have hb := C02_bounds hv l
+  have hne : T.generator l v ≠ [] := by
+    intro h; have := (C02_layout hv l).2.2.2.2.1; rw [h] at this; simp at this
+  apply C07.C07_syndromes l v data hdata hne
+  rcases hsize with h | h <;> rw [h]
+  · exact hb.1
+  · exact hb.2.1
 
 /-! non-vacuity: version 5-Q has 2 blocks of 15 and 2 of 16 data codewords, 18 EC each -/
 example : T.groups .Q 4 = (2, 15, 2, 16) ∧ (T.generator .Q 4).length = 19 := by decide +kernel
